@@ -150,6 +150,16 @@ func cmdC07(args []string) {
 		p.Name = "C07-C11"
 		p.Copy, p.Set, p.Get, p.GetI, p.Revert, p.Iter, p.MaxColls = 12, 40, 2, 2, 1, 0, 3
 	}
+	if *prof == "C17" {
+		// C17: "all other properties hold identically with and without them" - C07 under every
+		// subset of the neutral callbacks
+		p.Name = "C07-C17"
+		p.NoGet = true
+		p.GetI, p.Get = 12, 0
+		// (not the chunked value WRITER: the fault-aware model counts the file's write calls, and a
+		// writer that issues several per value would shift every injection point)
+		p.Cfg = func(r *rand.Rand) int { return r.Intn(256) &^ cbValWrite }
+	}
 	if *prof == "C18" {
 		p.Name = "C07-C18"
 		p.Iter, p.Visit, p.Evict, p.Reopen, p.Set, p.Get, p.GetI, p.Copy = 14, 10, 10, 8, 24, 2, 2, 0
@@ -190,12 +200,26 @@ func cmdC07(args []string) {
 			hn := hx([]byte(nm))
 			base = append(base, fmt.Sprintf("flush %d", sid), fmt.Sprintf("close %d", sid), fmt.Sprintf("open %d %d", nsid, gs.fid))
 			for i := 0; i < 3; i++ {
-				base = append(base, fmt.Sprintf("del %d %s %s", nsid, hn, hx(g.key())))
-				base = append(base, fmt.Sprintf("set %d %s %s %s %d", nsid, hn, hx(g.key()), hx(g.val()), 2000000000+i))
-				// bottom- and middle-priority inserts descend through union's recursion instead
-				base = append(base, fmt.Sprintf("set %d %s %s %s %d", nsid, hn, hx(g.key()), hx(g.val()), i))
-				base = append(base, fmt.Sprintf("set %d %s %s %s %d", nsid, hn, hx(g.key()), hx(g.val()), g.r.Intn(1<<31)))
-				base = append(base, fmt.Sprintf("del %d %s %s", nsid, hn, hx(g.key())))
+				if i > 0 && h%3 != 0 {
+					// every round meets a cold tree again
+					base = append(base, fmt.Sprintf("flush %d", nsid), fmt.Sprintf("close %d", nsid), fmt.Sprintf("open %d %d", nsid, gs.fid))
+				}
+				round := []string{
+					fmt.Sprintf("del %d %s %s", nsid, hn, hx(g.key())),
+					fmt.Sprintf("set %d %s %s %s %d", nsid, hn, hx(g.key()), hx(g.val()), 2000000000+i),
+					// bottom- and middle-priority inserts descend through union's recursion instead
+					fmt.Sprintf("set %d %s %s %s %d", nsid, hn, hx(g.key()), hx(g.val()), i),
+					fmt.Sprintf("set %d %s %s %s %d", nsid, hn, hx(g.key()), hx(g.val()), g.r.Intn(1<<31)),
+					fmt.Sprintf("set %d %s %s %s %d", nsid, hn, hx(g.key()), hx(g.val()), g.r.Intn(1<<20)),
+					fmt.Sprintf("del %d %s %s", nsid, hn, hx(g.key())),
+				}
+				// in any order: a top-priority insert splits from the root and loads most of a small
+				// tree, so what comes after it finds little left to read; in two histories out of three
+				// the cold tree is met by something else first
+				if h%3 != 0 {
+					g.r.Shuffle(len(round), func(a, b int) { round[a], round[b] = round[b], round[a] })
+				}
+				base = append(base, round...)
 			}
 			base = append(base, fmt.Sprintf("totals %d %s", nsid, hn), fmt.Sprintf("shape %d %s", nsid, hn), fmt.Sprintf("dump %d", nsid))
 			break
